@@ -177,7 +177,10 @@ def check(case, results):
                 break
     else:
         if fq != 1.0 and kind != "euler":
-            viol.append({"class": "harness", "oracle": "harness", "detail": "stochastic engine not in molecules"})
+            viol.append(dict(ctx, oracle="C14.engine-works-in-molecules", op=1,
+                             detail="a molecule-counting engine (%s, created through %s) was handed the state in %r, not in molecules: "
+                                    "'whole molecules' then means whole units of that" % (
+                                        kind, case["lifetimes"][0]["episodes"][0].get("via"), b["eus"].get("quantity"))))
         # integrality, non-negativity, zero preservation
         if np.any(X < 0) or np.any(X != np.floor(X)):
             d = np.argwhere((X < 0) | (X != np.floor(X)))[0]
